@@ -22,6 +22,7 @@ import (
 	"massnet.org/mass/poc/wallet/db"
 	_ "massnet.org/mass/poc/wallet/db/ldb"
 	"massnet.org/mass/poc/wallet/keystore"
+	"massnet.org/mass/poc/wallet/keystore/hdkeychain"
 	"massnet.org/mass/poc/wallet/keystore/snacl"
 	"verifharness/hx"
 )
@@ -57,6 +58,7 @@ type env struct {
 	passes      []string
 	wf          []bool
 	seeds       [][]byte
+	mixed       string // set by reopenObs: how the keystores' passphrases diverge, "" if they agree
 	idOf        map[string]int
 	nameOf      map[int]string
 	freshID     int
@@ -831,7 +833,12 @@ func (e *env) step() {
 		remark := []string{"", "main", "plot keys", "备注"}[r.Intn(4)]
 		e.do(e.opNew(e.somePass(), seed, remark))
 	case x < 16 && has:
-		e.do(e.opNext(id, r.Intn(2) == 0, uint32(r.Intn(4))))
+		n := uint32(r.Intn(4))
+		if r.Intn(10) == 0 {
+			// a request beyond the per-account limit: refused, nothing issued (never 2^31-1, which is allowed on a fresh branch)
+			n = []uint32{1 << 31, 1<<31 + 1, 1<<32 - 1, 1<<32 - 2}[r.Intn(4)]
+		}
+		e.do(e.opNext(id, r.Intn(2) == 0, n))
 	case x < 30:
 		e.do(e.opGenPub())
 	case x < 38:
@@ -1123,6 +1130,22 @@ func (e *env) scenarioC01() {
 				e.do(e.opImport(fno, f.priv, -1, "none"))
 			}
 		}
+		// second generation: a file exported from an IMPORTED keystore restores the same keystore again
+		if e.priv >= 0 {
+			for _, id := range e.ksIDs() {
+				_, out := e.opExport(id, e.priv)
+				e.do(fmt.Sprintf("export %d %s", id, e.ptok(e.priv)), out)
+				if !strings.HasPrefix(out, "file") {
+					continue
+				}
+				fno := len(e.files) - 1
+				l2, o2 := e.opDelete(id, e.priv)
+				e.do(l2, o2)
+				if o2 == "ok" {
+					e.do(e.opImport(fno, e.files[fno].priv, -1, "none"))
+				}
+			}
+		}
 	}
 }
 
@@ -1141,13 +1164,26 @@ func main() {
 	for i := 0; i < 4; i++ {
 		e.seeds = append(e.seeds, sha256sum("pool-seed-"+strconv.Itoa(i)))
 	}
+	// a fifth seed whose BIP32 master secret has a leading zero byte (about one seed in 256): fixed-width handling of the root key
+	for j := 0; j < 100000; j++ {
+		sd := sha256sum("short-master-seed-" + strconv.Itoa(j))
+		if k, err := hdkeychain.NewMaster(sd, config.ChainParams); err == nil {
+			if pk, err := k.ECPrivKey(); err == nil && len(pk.D.Bytes()) < 32 {
+				e.seeds = append(e.seeds, sd)
+				break
+			}
+		}
+	}
 	if *focus == "C04" {
 		runSecrecy(e)
 		e.closeStore()
 		h.Finish("wallet histories behind a recording db.DB: every stored value and export field is opened with keys derived from the passphrases and classified (model table); byte scan of store files, exports and log output for every secret after every operation; distinct = distinct (line, class) pairs")
 		return
 	}
-	if *focus == "C12" {
+	if *focus == "C03F" { // the fault enumeration restricted to passphrase changes, judged by the C03 oracles
+		e.focus = "C03"
+	}
+	if *focus == "C12" || *focus == "C03F" {
 		e.idOf, e.nameOf = map[string]int{}, map[int]string{}
 		e.c = &ctl{}
 		runFaults(e)
